@@ -177,9 +177,13 @@ def check_c05(idx: Index, tier: str, res: Result) -> None:
                        "timerange and Model.memoize are checked to normalise with the same base/offset/precision (siblings); the "
                        "memo is probed, evaluated and filled under the normalised key; result tables are keyed by the range variable.")
     res.rules = ["RAW: raw time sums vs sinks", "NORM: normalize() parameters agree between timerange and memoize",
-                 "KEY: tables keyed by normalised times", "TEMPLATE: time comparisons inside generated text"]
+                 "KEY: tables keyed by normalised times", "TEMPLATE: time comparisons inside generated text",
+                 "SESSION: the session's start/stop/dt and first clock value are the selected scenarios' (the clock is snapped relative to them)"]
     res.not_decided = ["that normalize()/precision_and_scale round correctly for every (start, dt, i) - float arithmetic on runtime values",
                        "labels of agent-based runs (round + step*dt in the scheduler is outside this property's anchors)"]
+    # the stepwise session runs on the scenarios' own grid: the clock is normalised relative to the session's start time and dt
+    from .channels import session_grid_rules
+    session_grid_rules(idx, res, "SESSION")
     nadv = 0
     for rel in CONSULTED:
         if rel not in idx.modules:
